@@ -571,7 +571,17 @@ func (c *FnCtx) evalSliceExpr(st *State, x *ast.SliceExpr) *Term {
 		c.oblige(st, "safe:slice", x, "", "slice bounds in range: "+c.exprText(x), ok)
 		st.assume(ok)
 		if !isLit(lo, "0") {
-			c.unsupportedf(x, "slice expression with non-zero low bound on a slice")
+			// general sub-slice: a named sequence defined elementwise
+			r := c.smt.freshConst("sub", s.Sort)
+			st.assume(mkEq(mk("rawlen_"+s.Sort, SInt, r), mkSub(hi, lo)))
+			st.assume(mkNot(mk("rawnil_"+s.Sort, SBool, r)))
+			c.quantN++
+			iv := leaf(fmt.Sprintf("sb!%d", c.quantN), SInt)
+			st.assume(mkForall([]Bound{{iv.Op, SInt}}, mkImplies(mkAnd(mkLe(intLit(0), iv), mkLt(iv, mkSub(hi, lo))), mkEq(c.sliceAt(r, iv), c.sliceAt(s, mkAdd(lo, iv)))), []*Term{c.sliceAt(r, iv)}))
+			c.quantN++
+			jv := leaf(fmt.Sprintf("sb!%d", c.quantN), SInt)
+			st.assume(mkForall([]Bound{{jv.Op, SInt}}, mkImplies(mkAnd(mkLe(lo, jv), mkLt(jv, hi)), mkEq(c.sliceAt(s, jv), c.sliceAt(r, mkSub(jv, lo)))), []*Term{c.sliceAt(s, jv)}))
+			return r
 		}
 		return c.mkSlice(s.Sort, hi, c.sliceArr(s))
 	}
